@@ -32,7 +32,7 @@ type config struct {
 	relife int // 1: a first life with default ownership, the explicit lists are set after its Shutdown; 2: set while that first life runs
 }
 
-const nLayouts = 7
+const nLayouts = 9
 
 // register adds handlers so that the service has a resource-kind handler (get/call/auth/new) iff hasRes
 // and an access handler iff hasAcc; the layout only varies where in the pattern tree they sit.
@@ -92,6 +92,32 @@ func register(s *res.Service, cfg config) {
 			opts = append(opts, acc)
 		}
 		s.Handle("h5.b.c", opts...)
+	case 7: // three levels assembled top-down: the inner mux has its handlers before it is mounted into the
+		// (already mounted) middle one
+		outer := s.Route("outer", nil)
+		inner := res.NewMux("")
+		if cfg.hasRes {
+			inner.Handle("r.$id", get)
+		}
+		if cfg.hasAcc {
+			inner.Handle("a.$id", acc)
+		}
+		if !cfg.hasRes && !cfg.hasAcc {
+			inner.Handle("x")
+		}
+		outer.Mount("inner", inner)
+	case 8: // three levels assembled bottom-up, one kind registered on the inner mux after everything is mounted
+		outer, inner := res.NewMux(""), res.NewMux("in")
+		if cfg.hasRes {
+			inner.Handle("r.$id", get)
+		}
+		outer.Mount("mid", inner)
+		s.Mount("up", outer)
+		if cfg.hasAcc {
+			inner.Handle("late.$id", acc)
+		} else {
+			inner.Handle("late.$id")
+		}
 	case 6: // the service's root resource (pattern "") carries the handlers
 		var opts []res.Option
 		if cfg.hasRes {
